@@ -273,6 +273,25 @@ def run(ck):
                     where = 'not-authentic-under-the-reference'
                 ck.violation(f'protected-serialisation-differs-from-reference:{where}', case, case)
             data = ref
+            # the layout the library can also express (and RFC 7296 3.14 allows): some payloads in the clear in FRONT of SK. Serialised like the reference, and
+            # parsed back to the same content (cleartext part and encrypted part)
+            if i % 9 == 3 and len(m['payloads']) >= 2 and m['exch'] != 34 and not any(p_.get('critical') for p_ in m['payloads']):
+                j_ = rng.randrange(1, len(m['payloads']))
+                msg2 = M.Message(payloads=objs[:j_], encrypted_payloads=objs[j_:], crypto=crypto, iv=iv, spi_i=m['spi_i'], spi_r=m['spi_r'], major=m['major'], minor=m['minor'],
+                                 exchange_type=m['exch'], is_response=bool(m['flags'] & 0x20), can_use_higher_version=bool(m['flags'] & 0x10), is_initiator=bool(m['flags'] & 0x08), message_id=m['mid'])
+                got2 = bytes(msg2.to_bytes())
+                ref2 = ikecrypto.sk_seal_clear_first(hdr, m['payloads'][:j_], m['payloads'][j_:], iid, sk_a, sk_e, iv)
+                ck.count('encode.clear_payloads_in_front_of_sk')
+                if got2 != ref2:
+                    ck.violation('protected-serialisation-differs-from-reference:clear-payloads-in-front-of-sk', case, case)
+                else:
+                    try:
+                        back = M.Message.parse(ref2, crypto=crypto)
+                        same = [abstract_of(x) for x in back.payloads] == [strip(p_) for p_ in m['payloads'][:j_]] and [abstract_of(x) for x in back.encrypted_payloads] == [strip(p_) for p_ in m['payloads'][j_:]]
+                        if not same:
+                            ck.violation('parse-of-a-message-with-clear-payloads-in-front-of-sk-yields-other-content', case, case)
+                    except FAMILY as ex:
+                        ck.violation(f'well-formed-message-with-clear-payloads-in-front-of-sk-rejected:{type(ex).__name__}', {'exc': repr(ex)[:120], **case}, case)
             # RFC 7296 3.14: "the recipient MUST accept any length that results in proper alignment": the same content behind 1..15 extra blocks of padding
             if i % 6 == 0:
                 base_pad = (16 - (len(ref_inner) + 1) % 16) % 16
@@ -587,6 +606,7 @@ def deferred_dump(ck, i):
 
 def verdict(ck):
     c = ck.counters
+    ck.floor('protected messages with cleartext payloads in front of SK serialised and parsed back', c['encode.clear_payloads_in_front_of_sk'], 60)
     ck.floor('handshakes with a repeated IKE_SA_INIT request whose dumps were formatted afterwards', c['deferred_dump.handshakes_with_a_repeated_request'], 6)
     ck.floor('messages built from objects shared between several places', c['encode.built_with_shared_objects'], 1500)
     for t in (33, 34, 35, 36, 39, 40, 41, 42, 43, 44, 45):
